@@ -195,3 +195,46 @@ def conversions_drop_caches(ctx, model, prop, rule):
             "after a conversion that changes only the unit (same basis/mode) loading_at / pressure_at keep interpolating the old numbers "
             "under the new labels"), nontrivial_key=("reset", name))
     return n
+
+
+def model_methods_stateless(ctx, model, prop, rule, methods=("loading", "pressure", "spreading_pressure")):
+    """the equation methods of every isotherm model (and the helper methods of the class they call) do not store anything on
+    the model object: a value remembered between calls (last pressure, last integral, a copy of the parameters) makes the
+    answer depend on earlier calls and goes stale when the parameters are edited in place or refitted"""
+    from .core import Finding
+    n = 0
+    found = []
+    for ci in model.all_classes() if hasattr(model, "all_classes") else []:
+        pass
+    classes = [c for m in model.modules.values() if m.name.startswith("pygaps.modelling.") for c in m.classes.values()]
+    for ci in classes:
+        todo = [ci.methods[m] for m in methods if m in ci.methods]
+        seen = set()
+        while todo:
+            fi = todo.pop()
+            if fi.qualname in seen:
+                continue
+            seen.add(fi.qualname)
+            n += 1
+            for x in _ast.walk(fi.node):
+                tg = []
+                if isinstance(x, _ast.Assign):
+                    tg = x.targets
+                elif isinstance(x, (_ast.AugAssign, _ast.AnnAssign)):
+                    tg = [x.target]
+                for t in tg:
+                    base = t
+                    while isinstance(base, _ast.Subscript):
+                        base = base.value
+                    if isinstance(base, _ast.Attribute) and _ast.unparse(base).startswith("self."):
+                        found.append((fi, x.lineno, _ast.unparse(t)))
+                if isinstance(x, _ast.Call) and isinstance(x.func, _ast.Attribute) and _ast.unparse(x.func.value) == "self":
+                    h = ci.find_method(x.func.attr)
+                    if h is not None and h.name not in ("fit", "fit_leastsq", "initial_guess", "__init__", "__init_parameters__"):
+                        todo.append(h)
+    for fi, line, tgt in found:
+        ctx.ob(False, Finding(f"{prop}.{rule}", fi.where, f"{fi.short}|stores:{tgt}",
+                              f"line {line}: {fi.short} stores `{tgt}` on the model while evaluating the model equation: later results depend on "
+                              "earlier calls and go stale when parameters change in place (refit, `model.params[k] = v`)"))
+    ctx.ob(True, nontrivial_key=("stateless-scan", n))
+    ctx.analysed["model equation methods scanned for state writes"] = n
